@@ -1,2 +1,4 @@
 //! Independent reference models used as oracles.  None of these share code with the repository.
 pub mod multimap;
+pub mod h1_req;
+pub mod h1_resp;
